@@ -52,6 +52,12 @@ def _block(stmts, env, hooks):
                 env[s.target.id] = cur + v
             else:
                 raise AnalysisError("absint: unsupported += on %r" % (cur,))
+        elif isinstance(s, ast.Expr) and isinstance(s.value, ast.Call) and isinstance(s.value.func, ast.Attribute) and \
+                s.value.func.attr in ("append", "extend") and isinstance(s.value.func.value, ast.Name) and \
+                isinstance(env.get(s.value.func.value.id), list) and len(s.value.args) == 1:
+            v = _eval(s.value.args[0], env, hooks)
+            cur = env[s.value.func.value.id]
+            env[s.value.func.value.id] = cur + ([v] if s.value.func.attr == "append" else list(v))
         elif isinstance(s, ast.If):
             c = _eval(s.test, env, hooks)
             _block(s.body if _truth(c, s.test) else s.orelse, env, hooks)
